@@ -14,8 +14,8 @@ pub struct Signature {
     bundled_outputs: Vec<String>,
     input_obj_arg: Vec<String>,
 
-    total_bundled_input: u8,
-    total_bundled_output: u8,
+    total_bundled_input: usize,
+    total_bundled_output: usize,
     is_no_typed_objects: bool,
 }
 
